@@ -240,7 +240,11 @@ fn classify(g: &GraphSpec, q: &Query, lang: Lang, got: &[Vec<Val>], why: &str) -
     let n = applicable.len();
     // subsets by increasing size (at most 6 simultaneous defects: Cypher alone has that many open ones that can meet in one OPTIONAL MATCH query)
     let mut subsets: Vec<u32> = (1u32..(1 << n)).filter(|m| m.count_ones() <= 6).collect();
-    subsets.sort_by_key(|m| (m.count_ones(), *m));
+    // explanations made only of open findings come first (smallest first), then the others: a result
+    // that an open finding predicts exactly is that finding, even if a repaired defect would predict
+    // the same rows on this input
+    let all_open = |m: u32| applicable.iter().enumerate().filter(|(i, _)| m & (1 << i) != 0).all(|(_, d)| open_signatures().contains(&format!("c08/{}:{}", d.name, lang.name())));
+    subsets.sort_by_key(|m| (!all_open(*m), m.count_ones(), *m));
     for mask in subsets {
         let mut mode = Mode::default();
         let mut names = Vec::new();
@@ -257,6 +261,11 @@ fn classify(g: &GraphSpec, q: &Query, lang: Lang, got: &[Vec<Val>], why: &str) -
         if mode.edge_props_lost
             && q.order.iter().any(|k| matches!(&q.ret[k.item], RetItem::Expr(Expr::Prop(v, _)) if q.edge_vars().contains(v)))
         {
+            qc.order.clear();
+        }
+        // likewise the sort runs on the true value of a WITH alias and only the projection that follows
+        // degrades it: the returned keys of such a column cannot be checked for order
+        if mode.with_alias_as_nodeid && q.order.iter().any(|k| matches!(&q.ret[k.item], RetItem::Expr(Expr::Var(_)))) {
             qc.order.clear();
         }
         if compare(&qc, &alt, got).is_ok() {
@@ -638,19 +647,19 @@ pub fn run_prop(r: &mut Run) {
     let (mn, me) = if thorough { (40, 60) } else { (12, 20) };
 
     let matrix = Mutex::new(Matrix::default());
-    r.subcheck("reference", r.cases(4_000, 300_000), || case_strategy(mn, me, QueryCfg { p_optional: 6, ..QueryCfg::default() }), |c: &Case| check_case(c, &LANGS, &matrix));
+    r.subcheck("reference", r.cases(16_000, 600_000), || case_strategy(mn, me, QueryCfg { p_optional: 6, ..QueryCfg::default() }), |c: &Case| check_case(c, &LANGS, &matrix));
     report_matrix(r, "reference", &matrix);
 
     // OPTIONAL MATCH (GQL + Cypher): every query carries the clause
     let optional = || QueryCfg { p_optional: 100, p_second_chain: 0, p_with: 0, p_varlen: 6, p_multilabel: 1, p_undirected: 6, ..QueryCfg::default() };
     let matrix_o = Mutex::new(Matrix::default());
-    r.subcheck("optional", r.cases(3_000, 150_000), || case_strategy(mn, me, optional()), |c: &Case| check_case(c, &[Lang::Gql, Lang::Cypher], &matrix_o));
+    r.subcheck("optional", r.cases(9_000, 300_000), || case_strategy(mn, me, optional()), |c: &Case| check_case(c, &[Lang::Gql, Lang::Cypher], &matrix_o));
     report_matrix(r, "optional", &matrix_o);
 
     // the Gremlin/GraphQL-expressible fragment is a small share of the full grammar: aim a generator at it
     let simple = || QueryCfg { simple_only: true, p_distinct: 10, p_agg: 25, p_order: 25, p_skiplimit: 20, p_varlen: 0, p_multilabel: 3, p_shaped: 80, ..QueryCfg::default() };
     let matrix2 = Mutex::new(Matrix::default());
-    r.subcheck("reference_simple", r.cases(10_000, 300_000), || case_strategy(mn, me, simple()), |c: &Case| check_case(c, &LANGS, &matrix2));
+    r.subcheck("reference_simple", r.cases(60_000, 1_000_000), || case_strategy(mn, me, simple()), |c: &Case| check_case(c, &LANGS, &matrix2));
     report_matrix(r, "reference_simple", &matrix2);
 
     let matrix3 = Mutex::new(Matrix::default());
@@ -659,7 +668,7 @@ pub fn run_prop(r: &mut Run) {
         c.p_skiplimit = 0;
         c
     };
-    r.subcheck("crosslang", r.cases(6_000, 200_000), || case_strategy(mn, me, cross()), |c: &Case| check_cross(c, &matrix3));
+    r.subcheck("crosslang", r.cases(24_000, 400_000), || case_strategy(mn, me, cross()), |c: &Case| check_cross(c, &matrix3));
     report_matrix(r, "crosslang", &matrix3);
 }
 
